@@ -264,6 +264,10 @@ pub struct Picks {
     pub n: usize,
     pub pieces: usize,
     pub masks: Vec<u8>,
+    /// Bitfields each peer may send (overrides `masks`) and whether Have commands are in the
+    /// alphabet: the departure scenario gives three peers fixed, overlapping sets.
+    pub per_peer: Option<Vec<Vec<u8>>>,
+    pub haves: bool,
 }
 
 #[derive(Default)]
@@ -289,7 +293,10 @@ fn code(s: &Status) -> u8 {
 impl Scenario for Picks {
     type Mon = PicksMon;
     fn name(&self) -> String {
-        format!("picks-n{}-p{}-m{:?}", self.n, self.pieces, self.masks)
+        match &self.per_peer {
+            Some(pp) => format!("picks-departures-n{}-p{}-m{:?}", self.n, self.pieces, pp),
+            None => format!("picks-n{}-p{}-m{:?}", self.n, self.pieces, self.masks),
+        }
     }
     fn cfg(&self) -> WorldCfg {
         WorldCfg { torrent: Torrent::new("t", 1, &[("f", self.pieces)], true), have: vec![], peers: vec![], gated: false, stale: vec![] }
@@ -313,12 +320,12 @@ impl Scenario for Picks {
                 continue;
             }
             if mon.bitfields[k] < 2 {
-                for m in &self.masks {
+                for m in self.per_peer.as_ref().map(|pp| &pp[k]).unwrap_or(&self.masks) {
                     e.push(format!("B{}:{}", k, m));
                 }
             }
             for i in 0..3.min(self.pieces) {
-                if !mon.advertised[k][i] {
+                if self.haves && !mon.advertised[k][i] {
                     e.push(format!("H{}:{}", k, i));
                 }
             }
@@ -423,9 +430,9 @@ impl Picks {
 
 pub fn picks_scenarios(thorough: bool) -> Vec<(Picks, usize)> {
     if thorough {
-        vec![(Picks { n: 2, pieces: 3, masks: vec![1, 3, 7] }, 8), (Picks { n: 3, pieces: 3, masks: vec![1, 6] }, 6), (Picks { n: 2, pieces: 12, masks: vec![1, 3, 7] }, 8)]
+        vec![(Picks { n: 2, pieces: 3, masks: vec![1, 3, 7], per_peer: None, haves: true }, 8), (Picks { n: 3, pieces: 3, masks: vec![1, 6], per_peer: None, haves: true }, 6), (Picks { n: 2, pieces: 12, masks: vec![1, 3, 7], per_peer: None, haves: true }, 8), (Picks { n: 3, pieces: 3, masks: vec![], per_peer: Some(vec![vec![6, 7], vec![2, 3], vec![4, 5]]), haves: false }, 8)]
     } else {
-        vec![(Picks { n: 2, pieces: 3, masks: vec![1, 6] }, 6), (Picks { n: 2, pieces: 12, masks: vec![1, 3] }, 6)]
+        vec![(Picks { n: 2, pieces: 3, masks: vec![1, 6], per_peer: None, haves: true }, 6), (Picks { n: 2, pieces: 12, masks: vec![1, 3], per_peer: None, haves: true }, 6), (Picks { n: 3, pieces: 3, masks: vec![], per_peer: Some(vec![vec![6], vec![2], vec![4]]), haves: false }, 6)]
     }
 }
 
@@ -464,7 +471,7 @@ pub fn run(ctx: &Ctx) -> Outcome {
     o.set("evaluations", json!(evals));
     o.set("distinct_nontrivial", json!(nontrivial));
     o.set("parts", Value::Array(parts));
-    o.set("rule", json!("exhaustive part: n pieces, every status vector over {Missing, Reserved(1), Reserved(2), Have}, the asked peer plus the other peers with every advertised set, and every digit vector of the real Fisher-Yates shuffle (= every tie-break permutation); threshold part: n in 9..=12, every (have, reserved, missing) split in two layouts, 3 peers with advertised sets from {all, none, only missing, only reserved, single piece x3, every second}, every candidate brought to the front of the shuffle once. Each (state, tie-break) is one call of the real choose_piece_index; states = transitions = evaluations; non-trivial = more than one acceptable pick. History part (picks-*): BFS over the commands B<k>:<mask> (bitfield, at most twice), H<k>:<i> (have), U<k> (unchoke, answered on a live reply channel), C<k> (choke), K<k> (disconnect) of 2..3 manager-only peers on a 3-piece and a 12-piece torrent: whenever an unchoke makes the manager pick, the pick must be acceptable with respect to what the peers really advertised (the harness's own record of their bitfields and haves) and to which pieces are owned / held by another connected, unchoking peer before the command (read from the peers' assignments, not from the reservation counters)."));
+    o.set("rule", json!("exhaustive part: n pieces, every status vector over {Missing, Reserved(1), Reserved(2), Have}, the asked peer plus the other peers with every advertised set, and every digit vector of the real Fisher-Yates shuffle (= every tie-break permutation); threshold part: n in 9..=12, every (have, reserved, missing) split in two layouts, 3 peers with advertised sets from {all, none, only missing, only reserved, single piece x3, every second}, every candidate brought to the front of the shuffle once. Each (state, tie-break) is one call of the real choose_piece_index; states = transitions = evaluations; non-trivial = more than one acceptable pick. History part (picks-*): BFS over the commands B<k>:<mask> (bitfield, at most twice), H<k>:<i> (have), U<k> (unchoke, answered on a live reply channel), C<k> (choke), K<k> (disconnect) of 2..3 manager-only peers on a 3-piece and a 12-piece torrent: whenever an unchoke makes the manager pick, the pick must be acceptable with respect to what the peers really advertised (the harness's own record of their bitfields and haves) and to which pieces are owned / held by another connected, unchoking peer before the command (read from the peers' assignments, not from the reservation counters). picks-departures-*: three peers with fixed overlapping sets ({1,2}, {1}, {2}) and no Have commands, so that a disconnect changes which piece is the rarest between two picks."));
     o.set("samples", Value::Array(samples));
     o.set("exhaustive", json!(true));
     o.assume("the asked peer holds no assignment of its own (reservations belong to other peers); the pick is observed at choose_piece_index, which every command handler (unchoke, bitfield, piece done/cancel, not-interested) calls");
